@@ -89,10 +89,10 @@ func lockOp(ci ssa.CallInstruction) (key string, op string, ok bool) {
 
 // MustLocks computes the locks that are certainly held at each instruction.
 type MustLocks struct {
-	c     *Ctx
-	entry map[*ssa.Function]lockSet // nil = top (unknown / not yet constrained)
-	inB   map[*ssa.BasicBlock]lockSet
-	roots map[*ssa.Function]bool
+	c      *Ctx
+	entry  map[*ssa.Function]lockSet // nil = top (unknown / not yet constrained)
+	inB    map[*ssa.BasicBlock]lockSet
+	roots  map[*ssa.Function]bool
 	edgeOK func(site ssa.CallInstruction, callee *ssa.Function) bool
 }
 
@@ -385,15 +385,15 @@ func (c *Ctx) reachFns(roots []*ssa.Function, ok func(site ssa.CallInstruction, 
 // ---- channel operations -----------------------------------------------------------
 
 type chanOp struct {
-	Kind   string // send, recv, close, select-send, select-recv, make
-	Field  *types.Var // struct field holding the channel (nil for locals)
-	Owner  string
-	Local  ssa.Value // for local channels: the MakeChan value (or param / free var)
-	Instr  ssa.Instruction
-	Fn     *ssa.Function
-	InSelect bool
-	SelectHasOther bool // select has another case or default
-	BufSize int64 // for make
+	Kind           string     // send, recv, close, select-send, select-recv, make
+	Field          *types.Var // struct field holding the channel (nil for locals)
+	Owner          string
+	Local          ssa.Value // for local channels: the MakeChan value (or param / free var)
+	Instr          ssa.Instruction
+	Fn             *ssa.Function
+	InSelect       bool
+	SelectHasOther bool  // select has another case or default
+	BufSize        int64 // for make
 }
 
 // chanOrigin resolves a channel value to a struct field or a local origin.
